@@ -422,4 +422,472 @@ theorem stepCharRef_good (o : Opts) (m : Mach) (inp : Str) (cr : CharRefSt) (hg 
         (by simp only [setCharRef_reconsume, hp.2.2.2.1]; exact hw.2.2.2.1),
         by simp [hp.2.2.2.2, hw.2.2.2.2.1]⟩
 
+/-- registers after a successful `pop_except_from` / data-state read -/
+def ReadOk (m m1 : Mach) (r : SetRes) : Prop :=
+  m1.state = m.state ∧ m1.tempBuf = m.tempBuf ∧ m1.reconsume = false ∧ m1.charRef = m.charRef ∧
+  m1.atEof = m.atEof ∧
+  ((∃ b, r = .notFromSet b ∧ m1.ignoreLf = m.ignoreLf) ∨
+   (∃ c, r = .fromSet c ∧ (m1.ignoreLf = true → c = '\n' ∨ m.ignoreLf = true)))
+
+theorem readOk_of_getChar (o : Opts) (m m1 : Mach) (inp i1 : Str) (c : Char)
+    (h : getChar o m inp = (some c, m1, i1)) : ReadOk m m1 (.fromSet c) := by
+  obtain ⟨h1, h2, h3, h4, h5, h6, h7⟩ := getChar_fields o m m1 inp i1 c h
+  refine ⟨h1, h2, h3, h4, h5, Or.inr ⟨c, rfl, ?_⟩⟩
+  intro hil
+  cases hr : m.reconsume with
+  | false => exact Or.inl (h6 hr hil)
+  | true => right; rw [← h7 hr]; exact hil
+
+theorem popExceptFrom_fields (o : Opts) (S : List Char) (m m1 : Mach) (inp i1 : Str) (r : SetRes)
+    (h : popExceptFrom o S m inp = (some r, m1, i1)) : ReadOk m m1 r := by
+  unfold popExceptFrom at h
+  split at h
+  · cases hg : getChar o m inp with
+    | mk c rest =>
+      obtain ⟨m2, i2⟩ := rest
+      rw [hg] at h
+      cases c with
+      | none => simp at h
+      | some c =>
+        simp only [Option.map_some, Prod.mk.injEq, Option.some.injEq] at h
+        obtain ⟨h1, h2, _⟩ := h
+        subst h1 h2
+        exact readOk_of_getChar o m m2 inp i2 c hg
+  · rename_i hs
+    have hs' : o.exactErrors = false ∧ m.reconsume = false ∧ m.ignoreLf = false := by
+      simpa [and_assoc] using hs
+    cases inp with
+    | nil => simp at h
+    | cons x xs =>
+      simp only at h
+      split at h
+      · -- via preprocess = get_char on a non-reconsuming machine
+        have hg : getChar o m (x :: xs) = preprocess o m x xs := by
+          unfold getChar; simp [hs'.2.1]
+        cases hp : preprocess o m x xs with
+        | mk c rest =>
+          obtain ⟨m2, i2⟩ := rest
+          rw [hp] at h hg
+          cases c with
+          | none => simp at h
+          | some c =>
+            simp only [Option.map_some, Prod.mk.injEq, Option.some.injEq] at h
+            obtain ⟨h1, h2, _⟩ := h
+            subst h1 h2
+            exact readOk_of_getChar o m m2 (x :: xs) i2 c hg
+      · simp only [Prod.mk.injEq, Option.some.injEq] at h
+        obtain ⟨h1, h2, _⟩ := h
+        subst h1 h2
+        exact ⟨rfl, rfl, hs'.2.1, rfl, rfl, Or.inl ⟨_, rfl, rfl⟩⟩
+
+theorem readData_fields (o : Opts) (m m1 : Mach) (inp i1 : Str) (r : SetRes)
+    (h : readData o m inp = (some r, m1, i1)) : ReadOk m m1 r := by
+  unfold readData at h
+  split at h
+  · exact popExceptFrom_fields o _ m m1 inp i1 r h
+  · rename_i hs
+    have hs' : o.exactErrors = false ∧ m.reconsume = false ∧ m.ignoreLf = false := by
+      simpa [and_assoc] using hs
+    cases inp with
+    | nil => simp at h
+    | cons x xs =>
+      simp only at h
+      split at h
+      · exact popExceptFrom_fields o _ m m1 (x :: xs) i1 r h
+      · simp only [Prod.mk.injEq, Option.some.injEq] at h
+        obtain ⟨h1, h2, _⟩ := h
+        subst h1 h2
+        refine ⟨?_, ?_, ?_, ?_, ?_, Or.inl ⟨_, rfl, ?_⟩⟩ <;> (split <;> simp [hs'.2.1])
+
+theorem readKind_state_facts {s : State} (h : readKind s = .popExcept ∨ readKind s = .dataSimd) :
+    s ≠ .markupDeclarationOpen ∧ s ≠ .afterDoctypeName ∧ s ≠ .tagOpen := by
+  cases s <;> simp [readKind] at h ⊢
+
+/-- `Good` after a `pop_except_from`-kind step -/
+theorem contSet_good (o : Opts) (pol : Pol) (m m1 : Mach) (r : SetRes) (i1 : Str)
+    (hg : Good m) (hk : readKind m.state = .popExcept ∨ readKind m.state = .dataSimd)
+    (hro : ReadOk m m1 r) (m' : Mach) (h : (ofSig (transSet o pol m1 r) i1).mach? = some m') :
+    Good m' ∧ m'.atEof = m.atEof := by
+  have hm' := ofSig_mach _ _ _ h
+  subst hm'
+  obtain ⟨h1, h2, h3, h4, h5, h6⟩ := hro
+  have hsf := readKind_state_facts hk
+  have hne := transSet_not_eat o pol m1 r (by rw [h1]; exact ⟨hsf.1, hsf.2.1⟩)
+  refine ⟨⟨?_, ?_, ?_⟩, by rw [transSet_atEof, h5]⟩
+  · intro hs; rcases hs with hs | hs
+    · exact absurd hs hne.1
+    · exact absurd hs hne.2
+  · intro _; rw [transSet_reconsume, h3]
+  · intro hs
+    obtain ⟨hs1, hws⟩ := transSet_unq o pol m1 r hs
+    rw [transSet_ignoreLf]
+    have hmu : m.state = .attributeValue .unquoted := by rw [← h1]; exact hs1
+    have hmil := hg.unq hmu
+    rcases h6 with ⟨b, hb, hil⟩ | ⟨c, hc, hil⟩
+    · rw [hil, hmil]
+    · cases hx : m1.ignoreLf with
+      | false => rfl
+      | true =>
+        rcases hil hx with hcn | hmt
+        · have := hws c hc
+          rw [hcn] at this
+          exact absurd this (by decide)
+        · rw [hmil] at hmt; exact absurd hmt (by simp)
+
+/-- `Good` after a `get_char!`-kind step (also used for the tail of `after-doctype-name`) -/
+theorem contChar_good (o : Opts) (pol : Pol) (m m1 : Mach) (c : Char) (inp i1 : Str)
+    (hg : Good m) (hne : m.state ≠ .markupDeclarationOpen ∧ m.state ≠ .attributeValue .unquoted)
+    (hadn : m.state = .afterDoctypeName → m.tempBuf = [])
+    (hgc : getChar o m inp = (some c, m1, i1))
+    (m' : Mach) (h : (ofSig (transChar o pol m1 c) i1).mach? = some m') :
+    Good m' ∧ m'.atEof = m.atEof := by
+  have hm' := ofSig_mach _ _ _ h
+  subst hm'
+  obtain ⟨h1, h2, h3, h4, h5, h6, h7⟩ := getChar_fields o m m1 inp i1 c hgc
+  obtain ⟨e1, e2, e3, e4⟩ := transChar_enter o pol m1 c
+  refine ⟨⟨?_, ?_, ?_⟩, by rw [transChar_atEof, h5]⟩
+  · intro hs hil
+    rcases hs with hs | hs
+    · rcases e1 hs with ⟨hto, hc, htb, _⟩ | heq
+      · -- entered from tagOpen on '!': the flag cannot be set after reading '!'
+        exfalso
+        rw [transChar_ignoreLf] at hil
+        have hmr := hg.tagOpen (by rw [← h1]; exact hto)
+        have := h6 hmr hil
+        rw [hc] at this
+        exact absurd this (by decide)
+      · rw [heq] at hs; rw [h1] at hs; exact absurd hs hne.1
+    · rcases e2 hs with ⟨_, htb⟩ | heq
+      · rcases htb with htb | ⟨hst, htb⟩
+        · exact htb
+        · rw [htb, h2]; exact hadn (by rw [← h1]; exact hst)
+      · rw [heq, h2]; rw [heq, h1] at hs; exact hadn hs
+  · intro hs
+    rw [e3 hs, h3]
+  · intro hs
+    have heq := e4 hs
+    rw [heq, h1] at hs
+    exact absurd hs hne.2
+
+theorem readKind_getChar_facts {s : State} (h : readKind s = .getChar) :
+    s ≠ .markupDeclarationOpen ∧ s ≠ .attributeValue .unquoted ∧ s ≠ .afterDoctypeName := by
+  cases s <;> simp [readKind] at h ⊢
+  all_goals (rename_i k; cases k <;> simp [readKind] at h)
+
+/-- `Good` says nothing about states other than the four it mentions -/
+theorem Good.of_state {m : Mach}
+    (h : m.state ≠ .markupDeclarationOpen ∧ m.state ≠ .afterDoctypeName ∧ m.state ≠ .tagOpen ∧
+      m.state ≠ .attributeValue .unquoted) : Good m where
+  eatOk := fun hs => by rcases hs with hs | hs <;> simp_all
+  tagOpen := fun hs => absurd hs h.2.2.1
+  unq := fun hs => absurd hs h.2.2.2
+
+theorem discardChar_fields (m : Mach) (inp : Str) :
+    (discardChar m inp).1.state = m.state ∧ (discardChar m inp).1.atEof = m.atEof ∧
+    (discardChar m inp).1.ignoreLf = m.ignoreLf := by
+  unfold discardChar; split <;> simp
+
+theorem readKind_bav {s : State} (h : readKind s = .peekBav) : s = .beforeAttributeValue := by
+  cases s <;> simp [readKind] at h ⊢
+
+theorem stepBav_good (o : Opts) (pol : Pol) (m : Mach) (inp : Str) (hg : Good m)
+    (hs : m.state = .beforeAttributeValue)
+    (m' : Mach) (h : (stepBav o pol m inp).mach? = some m') : Good m' ∧ m'.atEof = m.atEof := by
+  have free : ∀ x : Mach, x.state = .beforeAttributeValue → Good x := fun x hx =>
+    Good.of_state (by rw [hx]; simp)
+  unfold stepBav at h
+  cases hpk : peek m inp with
+  | none =>
+    simp only [hpk, R.mach?, Option.some.injEq] at h; subst h; exact ⟨hg, rfl⟩
+  | some c =>
+    simp only [hpk] at h
+    have hm2 : (if m.ignoreLf = true then m.setIgnoreLf false else m).state = m.state ∧
+        (if m.ignoreLf = true then m.setIgnoreLf false else m).atEof = m.atEof ∧
+        (if m.ignoreLf = true then m.setIgnoreLf false else m).ignoreLf = false := by
+      split
+      · simp
+      · rename_i hx; exact ⟨rfl, rfl, by simpa using hx⟩
+    generalize (if m.ignoreLf = true then m.setIgnoreLf false else m) = m2 at h hm2
+    obtain ⟨hst, hat, hil⟩ := hm2
+    have hd := discardChar_fields m2 inp
+    cases hsk : (m.ignoreLf && decide (c = '\n')) with
+    | true =>
+      simp only [hsk, ↓reduceIte, R.mach?, Option.some.injEq] at h
+      subst h
+      exact ⟨free _ (by rw [hd.1, hst, hs]), by rw [hd.2.1, hat]⟩
+    | false =>
+      simp only [hsk, Bool.false_eq_true, ↓reduceIte] at h
+      cases hnl : (decide (c = '\n') || decide (c = '\r')) with
+      | true =>
+        simp only [hnl, ↓reduceIte] at h
+        cases hgc : getChar o m2 inp with
+        | mk c1 rest =>
+          obtain ⟨m3, i3⟩ := rest
+          rw [hgc] at h
+          cases c1 with
+          | none =>
+            obtain ⟨_, _, g3⟩ := getChar_none o m2 m3 inp i3 hgc
+            simp only [R.mach?, Option.some.injEq] at h
+            subst h
+            rcases g3 with ⟨_, g4⟩ | ⟨_, _, g4⟩ <;> subst g4
+            · exact ⟨free _ (by rw [hst, hs]), hat⟩
+            · exact ⟨free _ (by simp [hst, hs]), by simp [hat]⟩
+          | some c1 =>
+            obtain ⟨g1, _, _, _, g5, _, _⟩ := getChar_fields o m2 m3 inp i3 c1 hgc
+            simp only [R.mach?, Option.some.injEq] at h
+            subst h
+            exact ⟨free _ (by rw [g1, hst, hs]), by rw [g5, hat]⟩
+      | false =>
+        simp only [hnl, Bool.false_eq_true, ↓reduceIte] at h
+        split at h
+        · simp only [R.mach?, Option.some.injEq] at h
+          subst h
+          exact ⟨free _ (by rw [hd.1, hst, hs]), by rw [hd.2.1, hat]⟩
+        · split at h
+          · simp only [R.mach?, Option.some.injEq] at h
+            subst h
+            exact ⟨Good.of_state (by simp), by simp [hd.2.1, hat]⟩
+          · split at h
+            · simp only [R.mach?, Option.some.injEq] at h
+              subst h
+              exact ⟨Good.of_state (by simp), by simp [hd.2.1, hat]⟩
+            · split at h
+              · have hm' := ofSig_mach _ _ _ h
+                subst hm'
+                have hss := emitTag_state pol .data (badChar o (discardChar m2 inp).1)
+                have h1 := sinkState_data_not_eat hss
+                have h2 := sinkState_data_not_unq hss
+                exact ⟨Good.of_state ⟨h1.1, h1.2.1, h1.2.2, h2⟩, by simp [hd.2.1, hat]⟩
+              · simp only [R.mach?, Option.some.injEq] at h
+                subst h
+                refine ⟨⟨?_, ?_, ?_⟩, by simp [hat]⟩
+                · intro hx; simp at hx
+                · intro hx; simp at hx
+                · intro _; simp [hil]
+
+theorem Good.of_eat_state {m : Mach}
+    (hs : m.state = .markupDeclarationOpen ∨ m.state = .afterDoctypeName) (hok : EatOk m) : Good m where
+  eatOk := fun _ => hok
+  tagOpen := fun hx => by rcases hs with hs | hs <;> rw [hs] at hx <;> simp at hx
+  unq := fun hx => by rcases hs with hs | hs <;> rw [hs] at hx <;> simp at hx
+
+theorem stepMdo_good (o : Opts) (pol : Pol) (m : Mach) (inp : Str) (hg : Good m)
+    (hs : m.state = .markupDeclarationOpen) (hat : m.atEof = false)
+    (m' : Mach) (h : (stepMdo o pol m inp).mach? = some m') : Good m' ∧ m'.atEof = m.atEof := by
+  have hok := hg.eatOk (Or.inl hs)
+  cases hr : stepMdo o pol m inp with
+  | suspend ms is =>
+    rw [hr] at h
+    simp only [R.mach?, Option.some.injEq] at h
+    subst h
+    obtain ⟨_, hok', _, hs', _, ha'⟩ := resume_mdo o pol m ms inp is [] hok hat hr
+    exact ⟨Good.of_eat_state (Or.inl (by rw [hs', hs])) hok', ha'⟩
+  | panic e => rw [hr] at h; simp [R.mach?] at h
+  | script ms is =>
+    exfalso
+    unfold stepMdo at hr
+    repeat' split at hr
+    all_goals simp at hr
+  | indicator ms is =>
+    exfalso
+    unfold stepMdo at hr
+    repeat' split at hr
+    all_goals simp at hr
+  | cont ms is =>
+    rw [hr] at h
+    simp only [R.mach?, Option.some.injEq] at h
+    subst h
+    unfold stepMdo at hr
+    cases h1 : eat m inp kwDashDash eqExact with
+    | mk b1 r1 =>
+      obtain ⟨m1, i1⟩ := r1
+      have f1 := eat_fields m m1 inp i1 _ _ b1 h1
+      rw [h1] at hr
+      cases b1 with
+      | none => simp at hr
+      | some b1 =>
+        cases b1 with
+        | true =>
+          simp only [R.cont.injEq] at hr
+          rw [← hr.1]
+          exact ⟨Good.of_state (by simp), by simp [f1.2.2]⟩
+        | false =>
+          simp only at hr
+          cases h2 : eat m1 i1 kwDoctype eqCi with
+          | mk b2 r2 =>
+            obtain ⟨m2, i2⟩ := r2
+            have f2 := eat_fields m1 m2 i1 i2 _ _ b2 h2
+            rw [h2] at hr
+            cases b2 with
+            | none => simp at hr
+            | some b2 =>
+              cases b2 with
+              | true =>
+                simp only [R.cont.injEq] at hr
+                rw [← hr.1]
+                exact ⟨Good.of_state (by simp), by simp [f2.2.2, f1.2.2]⟩
+              | false =>
+                simp only at hr
+                split at hr
+                · cases h3 : eat m2 i2 kwCdata eqExact with
+                  | mk b3 r3 =>
+                    obtain ⟨m3, i3⟩ := r3
+                    have f3 := eat_fields m2 m3 i2 i3 _ _ b3 h3
+                    rw [h3] at hr
+                    cases b3 with
+                    | none => simp at hr
+                    | some b3 =>
+                      cases b3 <;>
+                        (simp only [R.cont.injEq] at hr
+                         rw [← hr.1]
+                         exact ⟨Good.of_state (by simp), by simp [f3.2.2, f2.2.2, f1.2.2]⟩)
+                · simp only [R.cont.injEq] at hr
+                  rw [← hr.1]
+                  exact ⟨Good.of_state (by simp), by simp [f2.2.2, f1.2.2]⟩
+
+theorem stepAdn_good (o : Opts) (pol : Pol) (m : Mach) (inp : Str) (hg : Good m)
+    (hs : m.state = .afterDoctypeName) (hat : m.atEof = false)
+    (m' : Mach) (h : (stepAdn o pol m inp).mach? = some m') : Good m' ∧ m'.atEof = m.atEof := by
+  have hok := hg.eatOk (Or.inr hs)
+  cases hr : stepAdn o pol m inp with
+  | suspend ms is =>
+    rw [hr] at h
+    simp only [R.mach?, Option.some.injEq] at h
+    subst h
+    obtain ⟨_, hok', _, hs', _, ha'⟩ := resume_adn o pol m ms inp is [] hok hat hr
+    exact ⟨Good.of_eat_state (Or.inr (by rw [hs', hs])) hok', ha'⟩
+  | panic e => rw [hr] at h; simp [R.mach?] at h
+  | _ =>
+    -- cont / script / indicator: either a keyword matched, or the get_char tail ran
+    rw [hr] at h
+    have hm' : (stepAdn o pol m inp).mach? = some m' := by rw [hr]; exact h
+    clear h hr
+    unfold stepAdn at hm'
+    cases h1 : eat m inp kwPublic eqCi with
+    | mk b1 r1 =>
+      obtain ⟨m1, i1⟩ := r1
+      have f1 := eat_fields m m1 inp i1 _ _ b1 h1
+      rw [h1] at hm'
+      cases b1 with
+      | none =>
+        simp only [R.mach?, Option.some.injEq] at hm'
+        subst hm'
+        obtain ⟨_, hok', _, _⟩ := eat_none m m1 inp i1 _ _ hok h1
+        exact ⟨Good.of_eat_state (Or.inr (by rw [f1.1, hs])) hok', f1.2.2⟩
+      | some b1 =>
+        cases b1 with
+        | true =>
+          simp only [R.mach?, Option.some.injEq] at hm'
+          subst hm'
+          exact ⟨Good.of_state (by simp), by simp [f1.2.2]⟩
+        | false =>
+          simp only at hm'
+          obtain ⟨hs1, _, hat1⟩ := eat_false_settled m m1 inp i1 _ _ hok kw_ne.2.2.2.1 hat h1
+          cases h2 : eat m1 i1 kwSystem eqCi with
+          | mk b2 r2 =>
+            obtain ⟨m2, i2⟩ := r2
+            have f2 := eat_fields m1 m2 i1 i2 _ _ b2 h2
+            rw [h2] at hm'
+            cases b2 with
+            | none =>
+              simp only [R.mach?, Option.some.injEq] at hm'
+              subst hm'
+              obtain ⟨_, hok', _, _⟩ := eat_none m1 m2 i1 i2 _ _ hs1.eatOk h2
+              exact ⟨Good.of_eat_state (Or.inr (by rw [f2.1, f1.1, hs])) hok', by rw [f2.2.2, f1.2.2]⟩
+            | some b2 =>
+              cases b2 with
+              | true =>
+                simp only [R.mach?, Option.some.injEq] at hm'
+                subst hm'
+                exact ⟨Good.of_state (by simp), by simp [f2.2.2, f1.2.2]⟩
+              | false =>
+                simp only at hm'
+                obtain ⟨hs2, _, hat2⟩ := eat_false_settled m1 m2 i1 i2 _ _ hs1.eatOk kw_ne.2.2.2.2 hat1 h2
+                have hst2 : m2.state = .afterDoctypeName := by rw [f2.1, f1.1, hs]
+                have hg2 : Good m2 := Good.of_eat_state (Or.inr hst2) hs2.eatOk
+                cases hgc : getChar o m2 i2 with
+                | mk c3 r3 =>
+                  obtain ⟨m3, i3⟩ := r3
+                  rw [hgc] at hm'
+                  cases c3 with
+                  | none =>
+                    obtain ⟨_, _, g3⟩ := getChar_none o m2 m3 i2 i3 hgc
+                    simp only [R.mach?, Option.some.injEq] at hm'
+                    subst hm'
+                    rcases g3 with ⟨_, g4⟩ | ⟨_, _, g4⟩ <;> subst g4
+                    · exact ⟨hg2, by rw [f2.2.2, f1.2.2]⟩
+                    · exact ⟨hg2.setIgnoreLf_false, by simp [f2.2.2, f1.2.2]⟩
+                  | some c3 =>
+                    have := contChar_good o pol m2 m3 c3 i2 i3 hg2 (by rw [hst2]; simp)
+                      (fun _ => hs2.2) hgc m' hm'
+                    exact ⟨this.1, by rw [this.2, f2.2.2, f1.2.2]⟩
+
+/-- **every step preserves the invariant** (and never touches `at_eof`) -/
+theorem step_good (o : Opts) (pol : Pol) (m : Mach) (inp : Str) (hg : Good m) (hat : m.atEof = false)
+    (m' : Mach) (h : (step o pol m inp).mach? = some m') : Good m' ∧ m'.atEof = m.atEof := by
+  cases hcr : m.charRef with
+  | some cr =>
+    rw [step_kind_charRef o pol m inp cr hcr] at h
+    exact stepCharRef_good o m inp cr hg m' h
+  | none =>
+    cases hrk : readKind m.state with
+    | getChar =>
+      rw [step_getChar o pol m inp hcr hrk] at h
+      have hf := readKind_getChar_facts hrk
+      cases hgc : getChar o m inp with
+      | mk c r =>
+        obtain ⟨m1, i1⟩ := r
+        rw [hgc] at h
+        cases c with
+        | none =>
+          obtain ⟨_, _, g3⟩ := getChar_none o m m1 inp i1 hgc
+          simp only [contChar, R.mach?, Option.some.injEq] at h
+          subst h
+          rcases g3 with ⟨_, g4⟩ | ⟨_, _, g4⟩ <;> subst g4
+          · exact ⟨hg, rfl⟩
+          · exact ⟨hg.setIgnoreLf_false, by simp⟩
+        | some c =>
+          exact contChar_good o pol m m1 c inp i1 hg ⟨hf.1, hf.2.1⟩ (fun hx => absurd hx hf.2.2) hgc m' h
+    | popExcept =>
+      rw [step_popExcept o pol m inp hcr hrk] at h
+      cases hgc : popExceptFrom o (setOf m.state) m inp with
+      | mk c r =>
+        obtain ⟨m1, i1⟩ := r
+        rw [hgc] at h
+        cases c with
+        | none =>
+          obtain ⟨_, _, g3⟩ := popExceptFrom_none o _ m m1 inp i1 hgc
+          simp only [contSet, R.mach?, Option.some.injEq] at h
+          subst h
+          rcases g3 with ⟨_, g4⟩ | ⟨_, _, g4⟩ <;> subst g4
+          · exact ⟨hg, rfl⟩
+          · exact ⟨hg.setIgnoreLf_false, by simp⟩
+        | some c =>
+          exact contSet_good o pol m m1 c i1 hg (Or.inl hrk) (popExceptFrom_fields o _ m m1 inp i1 c hgc) m' h
+    | dataSimd =>
+      rw [step_dataSimd o pol m inp hcr hrk] at h
+      cases hgc : readData o m inp with
+      | mk c r =>
+        obtain ⟨m1, i1⟩ := r
+        rw [hgc] at h
+        cases c with
+        | none =>
+          obtain ⟨_, _, g3⟩ := readData_none o m m1 inp i1 hgc
+          simp only [contSet, R.mach?, Option.some.injEq] at h
+          subst h
+          rcases g3 with ⟨_, g4⟩ | ⟨_, _, g4⟩ <;> subst g4
+          · exact ⟨hg, rfl⟩
+          · exact ⟨hg.setIgnoreLf_false, by simp⟩
+        | some c =>
+          exact contSet_good o pol m m1 c i1 hg (Or.inr hrk) (readData_fields o m m1 inp i1 c hgc) m' h
+    | peekBav =>
+      rw [step_kind_bav o pol m inp hcr hrk] at h
+      exact stepBav_good o pol m inp hg (readKind_bav hrk) m' h
+    | eatMdo =>
+      rw [step_kind_mdo o pol m inp hcr hrk] at h
+      exact stepMdo_good o pol m inp hg (readKind_mdo hrk) hat m' h
+    | eatAdn =>
+      rw [step_kind_adn o pol m inp hcr hrk] at h
+      exact stepAdn_good o pol m inp hg (readKind_adn hrk) hat m' h
+
 end H5V.Model.HtmlTok
